@@ -4,7 +4,7 @@
    read: static connections of setup<Binding>() plus the observer slots re-connected inside eval<Binding>()) -- and proves that they
    suffice for every history, including re-pointing and nulling of intermediate pointers (which only change the read set).
    That the real output has the two facts is NOT proved; it is tested by executing real headers on histories (vlib/c02.py). *)
-From QV Require Import model.Base model.Signals proofs.SignalsProofs.
+From QV Require Import model.Base model.Lang model.Types model.Tir model.Passes model.Signals proofs.SignalsProofs proofs.PropdepProofs.
 
 Theorem C02_stays_current : forall (key value : Type) (key_eqb : key -> key -> bool),
   (forall a b, key_eqb a b = true <-> a = b) ->
@@ -19,6 +19,15 @@ Theorem C02_run_world : forall (key value : Type) (key_eqb : key -> key -> bool)
   now _ _ (run _ _ key_eqb eval connected w history) = fold_left (fun w0 c => update _ _ key_eqb w0 (fst c) (snd c)) history w.
 Proof. exact run_world. Qed.
 Print Assumptions C02_run_world.
+
+(* COVERAGE at the level of the IR, for the model of tir/propdep.rs (model/Passes.v, whose output is compared token by token with the
+   implementation's on every run of C05/C06/C07): after the dependency analysis, in EVERY block -- hence on every path -- every read of
+   a non-constant property through a pointer is covered: by a static dependency on the object the operand is (or is known to hold), or
+   by an observation of that local with that property's notify signal inserted IMMEDIATELY before the read *)
+Theorem C02_dependency_complete_ir : forall E c c' ds, analyze_code_property_dependency E c = Ok (c', ds) ->
+  Forall (block_covered E c' (c_nobs c) (length (c_locals c))) (c_blocks c').
+Proof. intros E c c' ds H. exact (proj1 (dependency_complete E c c' ds H)). Qed.
+Print Assumptions C02_dependency_complete_ir.
 
 (* coverage is necessary: a binding not connected to a key it reads goes stale *)
 Theorem C02_stale_without_coverage_refuted :
